@@ -342,7 +342,11 @@ C       IF (DABS(RAT-1D0).GT.1D-6) PRINT 8004, AXI
       IXXX=XEV+4.05D0*XEV**0.333333D0
       INM1=MAX0(4,IXXX)
 C       IF (INM1.GE.NPN1) PRINT 7333, NPN1
-      IF (INM1.GE.NPN1) STOP
+      IF (INM1.GE.NPN1) THEN
+C        no convergence within the array bounds: flag failure to the caller
+         MAXITER=-1
+         RETURN
+      ENDIF
  7333 FORMAT('CONVERGENCE IS NOT OBTAINED FOR NPN1=',I3,  
      &       '.  EXECUTION TERMINATED')
       QEXT1=0D0
@@ -352,7 +356,11 @@ C       IF (INM1.GE.NPN1) PRINT 7333, NPN1
          MMAX=1
          NGAUSS=NMAX*NDGS
 C          IF (NGAUSS.GT.NPNG1) PRINT 7340, NGAUSS
-         IF (NGAUSS.GT.NPNG1) STOP
+         IF (NGAUSS.GT.NPNG1) THEN
+C        no convergence within the array bounds: flag failure to the caller
+         MAXITER=-1
+         RETURN
+      ENDIF
  7340    FORMAT('NGAUSS =',I3,' I.E. IS GREATER THAN NPNG1.',
      &          '  EXECUTION TERMINATED')
  7334    FORMAT(' NMAX =', I3,'  DC2=',D8.2,'   DC1=',D8.2)
@@ -382,7 +390,11 @@ c  C     PRINT 7334, NMAX,DSCA,DEXT
          MAXITER=NMAX
          IF(DSCA.LE.DDELT.AND.DEXT.LE.DDELT) GO TO 55
 C          IF (NMA.EQ.NPN1) PRINT 7333, NPN1
-         IF (NMA.EQ.NPN1) STOP      
+         IF (NMA.EQ.NPN1) THEN
+C        no convergence within the array bounds: flag failure to the caller
+         MAXITER=-1
+         RETURN
+      ENDIF
    50 CONTINUE
    55 NNNGGG=NGAUSS+1
       MMAX=NMAX
@@ -571,7 +583,14 @@ C   CALCULATION OF THE AMPLITUDE MATRIX
      &    PL.LT.0D0.OR.PL.GT.360D0.OR.
      &    PL1.LT.0D0.OR.PL1.GT.360D0) THEN 
 C         WRITE (6,2000)
-          STOP
+C         flag failure to the caller with NaNs
+          DNAN=0D0
+          DNAN=DNAN/DNAN
+          VV=DCMPLX(DNAN,DNAN)
+          VH=VV
+          HV=VV
+          HH=VV
+          RETURN
       ELSE
           CONTINUE
       ENDIF  
